@@ -255,6 +255,15 @@ def tlapm(wd, module, timeout=900, threads=8):
     return bool(m) and r.returncode == 0, int(m.group(1)) if m else 0, out[-2000:]
 
 
+def spec_validation_problem(run, what):
+    """A stage that validates the SPECIFICATION against an independent implementation (MIT Kerberos) - no code of /repo is involved -
+    found a disagreement or could not be carried out.  That is no statement about the code under test and cannot be caused by a change
+    to it: it is recorded in the evidence and printed, and the verdict of the check stays what the trace validation says
+    (bin/selftest runs the same stages and fails on them)."""
+    run.extra.setdefault("specification_validation_problems", []).append(what[:1500])
+    print("WARNING (specification validation): " + what[:1500], file=sys.stderr)
+
+
 def main_wrapper(fn):
     try:
         fn()
